@@ -320,7 +320,12 @@ impl PhoneticSuggestion {
     ) {
         // Build the Regex string.
         self.regex_parser.convert_regex_into(word, &mut self.regex);
-        let rgx = Regex::new(&self.regex).unwrap();
+        let rgx = match Regex::new(&self.regex) {
+            Ok(rgx) => rgx,
+            // The pattern of a very long word exceeds the size limit of the regex engine,
+            // there is nothing to find in the dictionary for it anyway.
+            Err(_) => return,
+        };
 
         suggestions.extend(
             self.table
